@@ -181,7 +181,7 @@ fn analyze_sender(sc: &Scenario, r: &SimResult) -> (Vec<Finding>, Facts) {
                     hi = abs;
                 }
             }
-            Ev::Rx { bytes, .. } => {
+            Ev::Rx { bytes, wire_error, .. } => {
                 if in_burst {
                     close_run(&mut out, run_len, &mut push, i);
                     in_burst = false;
@@ -195,7 +195,8 @@ fn analyze_sender(sc: &Scenario, r: &SimResult) -> (Vec<Finding>, Facts) {
                 }
                 prev_adv = false;
                 last_rx_was_stale_ack = false;
-                match refcodec::decode(bytes) {
+                let dec = if *wire_error { RDec::Ok(RPacket::Error { code: 0, msg: String::new() }) } else { refcodec::decode(bytes) };
+                match dec {
                     RDec::Ok(RPacket::Ack(k)) => {
                         if handshake_pending {
                             handshake_pending = false;
@@ -297,6 +298,10 @@ fn analyze_sender(sc: &Scenario, r: &SimResult) -> (Vec<Finding>, Facts) {
         // the thread ended and the last thing that happened was a stale/duplicate ACK
         push(&mut out, "S10", format!("the transfer ended right after a stale/duplicate acknowledgement (event {}), first unacknowledged block {}, final block {}", r.trace.len() - 1, base, n));
     }
+    if done_at.is_none() && error_at.is_none() && !r.cap_hit && !r.worker_panicked && hi >= 1 && hi < n && base == hi + 1 && prev_adv && matches!(r.trace.last(), Some(Ev::Rx { .. })) {
+        // everything emitted was acknowledged and the worker ended - but the short final block was never sent
+        push(&mut out, "S11", format!("the transfer ended after block {} was acknowledged although the final block {} (the first one shorter than blksize) was never sent; file {} bytes, blksize {}", hi, n, sc.file_len, blk));
+    }
     fa.completed = done_at.is_some();
     fa.ended_cleanly = !r.cap_hit && !r.worker_panicked;
     fa.shape = shape;
@@ -384,7 +389,7 @@ fn analyze_receiver(sc: &Scenario, r: &SimResult) -> (Vec<Finding>, Facts) {
                     }
                 }
             }
-            Ev::Rx { bytes, .. } => {
+            Ev::Rx { bytes, wire_error, .. } => {
                 if run_len != 0 && run_len != sc.repeat {
                     push(&mut out, "S9", format!("an acknowledgement was emitted {} time(s) back to back, expected {}", run_len, sc.repeat));
                 }
@@ -393,7 +398,8 @@ fn analyze_receiver(sc: &Scenario, r: &SimResult) -> (Vec<Finding>, Facts) {
                 if let Some(due) = must_ack {
                     push(&mut out, "R3", format!("an acknowledgement was due at event {} ({} blocks in sequence since the last one, windowsize {}, final block seen: {}) but the worker went on receiving", due, since_ack, ws, final_seen));
                 }
-                match refcodec::decode(bytes) {
+                let dec = if *wire_error { RDec::Ok(RPacket::Error { code: 0, msg: String::new() }) } else { refcodec::decode(bytes) };
+                match dec {
                     RDec::Ok(RPacket::Data { block, data }) => {
                         if !final_seen && block == wire(acc_blocks + 1) {
                             acc_blocks += 1;
